@@ -284,6 +284,10 @@ func GenProperty(w *Writer, prop string, t Tier, seed uint64) error {
 					Axis: "child", Test: Test{Kind: "any"}, Preds: []Expr{Call{Base: Ctx{}, Name: "lang", Args: []Expr{Lit{S: Pick(r, LangPool)}}}}}}}, 0
 			}},
 		})
+	case "C08":
+		return GenParseFamily(w, r, t)
+	case "C15":
+		return GenFuzzFamily(w, r, t)
 	case "C09":
 		return GenXmlFamily(w, r, t)
 	case "C10":
